@@ -149,8 +149,17 @@ fn construct(id: u128, a: &[Arg]) -> Built {
             Built::Mmap(MemoryMapTag::new(&areas))
         }
         7 => {
-            let ci: VBEControlInfo = unsafe { core::ptr::read_unaligned(a[4].b().as_ptr().cast()) };
-            let mi: VBEModeInfo = unsafe { core::ptr::read_unaligned(a[5].b().as_ptr().cast()) };
+            // all-zero blocks are produced by the types' Default impls (which must be exactly that)
+            let ci: VBEControlInfo = if a[4].b().iter().all(|x| *x == 0) {
+                VBEControlInfo::default()
+            } else {
+                unsafe { core::ptr::read_unaligned(a[4].b().as_ptr().cast()) }
+            };
+            let mi: VBEModeInfo = if a[5].b().iter().all(|x| *x == 0) {
+                VBEModeInfo::default()
+            } else {
+                unsafe { core::ptr::read_unaligned(a[5].b().as_ptr().cast()) }
+            };
             Built::Vbe(VBEInfoTag::new(u16_(0), u16_(1), u16_(2), u16_(3), ci, mi))
         }
         8 => {
@@ -432,7 +441,8 @@ fn run_build(ctx: &mut Ctx, a: &[Arg]) {
         precheck(c.l()[0].n(), &c.l()[1..]);
     }
     let r = guard(|| {
-        let mut b = multiboot2::Builder::new();
+        // Default is a second constructor of the builder: used for the call lists of even length
+        let mut b = if calls.len() % 2 == 0 { multiboot2::Builder::default() } else { multiboot2::Builder::new() };
         for c in calls {
             let c = c.l();
             b = apply(b, construct(c[0].n(), &c[1..]));
@@ -506,10 +516,11 @@ fn hprecheck(id: u128, a: &[Arg]) {
     }
 }
 
-fn hconstruct(id: u128, a: &[Arg]) -> HBuilt {
+fn hconstruct(id: u128, a: &[Arg], place: usize) -> HBuilt {
     let u32_ = |i: usize| a[i].n() as u32;
     match id {
-        0 => HBuilt::End(EndHeaderTag::new()),
+        // the Default impl is a second constructor of the end tag: used for the cases placed at offset 8
+        0 => HBuilt::End(if place == 8 { EndHeaderTag::default() } else { EndHeaderTag::new() }),
         1 => {
             let reqs: Vec<MbiTagTypeId> = a[1].l().iter().map(|r| MbiTagTypeId::new(r.n() as u32)).collect();
             HBuilt::InfoReq(InformationRequestHeaderTag::new(hflag(&a[0]), &reqs))
@@ -580,7 +591,7 @@ fn run_hctor(ctx: &mut Ctx, a: &[Arg]) {
     let place = a[1].u();
     hprecheck(id, &a[2..]);
     alloc_track::start();
-    let r = guard(|| hconstruct(id, &a[2..]));
+    let r = guard(|| hconstruct(id, &a[2..], place));
     let (allocs, _) = alloc_track::stop();
     let b = match r {
         Err(()) => {
@@ -649,7 +660,7 @@ fn run_hbuild(ctx: &mut Ctx, a: &[Arg]) {
         let mut b = multiboot2_header::Builder::new(arch);
         for c in calls {
             let c = c.l();
-            b = happly(b, hconstruct(c[0].n(), &c[1..]));
+            b = happly(b, hconstruct(c[0].n(), &c[1..], 0));
         }
         b
     });
